@@ -2201,8 +2201,18 @@ token_list: list[str] = [
     r"[ \t]+\n*",
     r":",  # sometimes special when not beginning of line
     r"<<[-a-zA-Z0-9/]*>>",
-    r"""<[-a-zA-Z0-9]+\s*(\b[-a-zA-Z0-9:]+(\s*=\s*("[^<>"]*"|"""  # HTML start
-    r"""'[^<>']*'|[^ \t\n"'`=<>]*))?\s*)*/?>""",  # HTML start tag
+    # HTML start tag.  An attribute name and an unquoted attribute value are
+    # each matched inside a lookahead and then consumed by a backreference,
+    # which keeps the regex engine from trying their shorter variants: with
+    # plain `+` / `*` every name or value can be cut at each word boundary
+    # inside it (the rest read as further attributes), and a tag that cannot
+    # be completed (no closing `>`, a stray quote) is retried in 2**n ways
+    # for n attributes.  A value stops early only where it has to: before a
+    # name that is followed by `=` (k=v-w=z is k="v", -w="z").
+    r"""<[-a-zA-Z0-9]+\s*(?:\b(?=(?P<_attr_name>[-a-zA-Z0-9:]+))"""
+    r"""(?P=_attr_name)(?:\s*=\s*(?:"[^<>"]*"|'[^<>']*'|"""
+    r"""(?=(?P<_attr_value>[^ \t\n"'`=<>]*?(?=\b[-a-zA-Z0-9:]+\s*=)|"""
+    r"""[^ \t\n"'`=<>]*))(?P=_attr_value)))?\s*)*/?>""",
     r"</[-a-zA-Z0-9]+\s*>",
     r"(" + r"|".join(r"\b{}\b".format(x) for x in MAGIC_WORDS) + r")",
     r"[{:c}-{:c}]".format(MAGIC_FIRST, MAGIC_LAST),
